@@ -88,7 +88,9 @@ func (e *env) prototypes(c *config.Configuration) {
 
 		id := fmt.Sprintf("det-ra-%d", i)
 		cfg := map[string]any{"endpoint": map[string]any{"url": S + "/authz", "headers": randHeaders(rng, nh)}, "values": randValues(rng, nv),
-			"payload": `{"s": {{ quote .Subject.ID }} }`, "cache_ttl": longTTL, "forward_response_headers_to_upstream": []string{"X-Authz-Echo"}}
+			"payload": `{"s": {{ quote .Subject.ID }} }`, "cache_ttl": longTTL,
+			// header names are case-insensitive: every second configuration spells the forwarded name the yaml way
+			"forward_response_headers_to_upstream": []string{[]string{"X-Authz-Echo", "x-authz-echo", "X-AUTHZ-echo"}[i%3]}}
 		addAuthz(id, cfg)
 		st := mstep{Kind: "authz", Proto: id, Step: ck.Step{Subject: sub, Outputs: outputs, Req: ck.Req{Headers: map[string]string{"X-Tenant": tenant}}}}
 		e.det = append(e.det, detConfig{"remote_authorizer", cfg, func(*env) []mstep { return []mstep{st} }})
